@@ -105,8 +105,8 @@ func conflicts(a, b string) bool {
 }
 
 type opResult struct {
-	errKind  int // 0 ok, 1 ErrInvalidRoute, 2 ErrRouteExist, 3 ErrRouteConflict, 4 ErrRouteNotFound
-	matched  []string
+	errKind   int // 0 ok, 1 ErrInvalidRoute, 2 ErrRouteExist, 3 ErrRouteConflict, 4 ErrRouteNotFound
+	matched   []string
 	ambiguous bool
 }
 
